@@ -221,7 +221,7 @@ def main(tier):
         run.cov["traces_validated_against_impl"] += len(lines) - len(bad)
         run.add_model(res)
         from cryptocommon import binding_selftest
-        binding_selftest(run, wd, "TraceC19", trace, 3400)
+        binding_selftest(run, wd, "TraceC19", trace, 3400, exclude=bad)
         diffs = {}
         # TLC wraps long values over several lines: read the tuples from the raw output
         for m in re.finditer(r'<<\s*"SWEEPDIFF",\s*(\d+),\s*\{([^}]*)\},\s*\{([^}]*)\}\s*>>', res.out):
